@@ -6,6 +6,7 @@ import (
 	"context"
 	"errors"
 	"fmt"
+	"sort"
 	"time"
 
 	"github.com/failsafe-go/failsafe-go"
@@ -68,6 +69,32 @@ func c10Programs(tier string) []*Program {
 						sc = []Out{{V: oc.V, Err: oc.Err, Dur: 2 * pxL, Coop: true}}
 					}
 					progs = append(progs, &Program{Stack: stack, Scripts: [][]Out{sc, sc}, Checks: "layers,events", MaxBoundedDepth: 3})
+				}
+			}
+		}
+	}
+	// the fallback applied several times within one execution: inside a retry policy that treats the
+	// fallback's output as a failure, with outputs fixed and derived from the failure handled
+	outers := []Spec{
+		{Kind: KRetry, MaxRetries: 2},
+		{Kind: KRetry, MaxRetries: 2, Handle: []Cond{{K: "result", V: 100}, {K: "errs", E: E3}}},
+		{Kind: KRetry, MaxRetries: 1, Handle: []Cond{{K: "result", V: 0}}, ReturnLast: true},
+	}
+	fbs := []Spec{
+		{Kind: KFallback, FbE: E3},
+		{Kind: KFallback, FbV: 0, Handle: []Cond{{K: "errs", E: E1}, {K: "result", V: 0}}},
+		{Kind: KFallback, FbEcho: true, FbE: E3},
+		{Kind: KFallback, FbEcho: true, Handle: []Cond{{K: "errs", E: E1}, {K: "result", V: 0}, {K: "result", V: 2}}},
+	}
+	base := []Out{{V: 1}, {V: 0}, {V: 2}, {Err: E1}, {Err: E2}}
+	for _, o := range outers {
+		for _, fb := range fbs {
+			for _, a := range base {
+				for _, b := range base {
+					for _, c := range base {
+						sc := []Out{a, b, c}
+						progs = append(progs, &Program{Stack: []Spec{o, fb}, Scripts: [][]Out{sc, sc}, Checks: "layers,events", MaxBoundedDepth: 3})
+					}
 				}
 			}
 		}
@@ -160,7 +187,95 @@ func c11Programs(tier string) []*Program {
 			}
 		}
 	}
+	// the cache policy inside a timeout that expires while a function that ignores cancellation is still
+	// running: the result it eventually returns carries no error and is stored
+	for _, cfgKey := range []string{"", "a"} {
+		for k1, key1 := range ctxKeys {
+			for _, cif := range []string{"", "v1"} {
+				for oi, oc := range []Out{{V: 1, Dur: 2 * pxL}, {V: 0, Dur: 2 * pxL}, {Err: E1, Dur: 2 * pxL}, {V: 1, Dur: 2 * pxL, Coop: true}} {
+					key2 := ctxKeys[(k1+1+oi)%len(ctxKeys)]
+					stack := []Spec{{Kind: KTimeout, Limit: pxL}, {Kind: KCache, Key: cfgKey, CacheIf: cif}}
+					progs = append(progs, &Program{Stack: stack, Scripts: [][]Out{{oc}, {{V: 2}}, {{V: 3}}}, CtxKeys: []any{key1, key2, key1}, Checks: "layers,events", MaxBoundedDepth: 3})
+				}
+			}
+		}
+	}
 	return progs
+}
+
+// c11ConcurrentScenarios: executions through one cache policy that overlap, with keys that differ, and a
+// caller's context cancelled while the function runs. Every error-free result ends up under its own
+// execution's key and nowhere else.
+func c11ConcurrentScenarios(tier string) []*Scenario {
+	bound := 2
+	if tier == "thorough" {
+		bound = 3
+	}
+	var out []*Scenario
+	add := func(name string, c Spec, exes []ExeSpec, want map[string][]int, results [][2]any) {
+		out = append(out, &Scenario{
+			Name:  fmt.Sprintf("C11/concurrent/%s [%s] %s", name, c.String(), exesStr(exes)),
+			Bound: bound, Reduce: true,
+			Body: multiBody([]Spec{c}, exes, MultiOpts{Reduce: true, Final: func(env *Env) string {
+				for i, x := range env.Exes {
+					w := results[i]
+					if x.ResV != w[0].(int) || x.ResE != w[1] {
+						return fmt.Sprintf("execution %d returned (%d,%v), want (%d,%v)", i, x.ResV, x.ResE, w[0], w[1])
+					}
+				}
+				m := env.Caches[0].M
+				for k, vs := range want {
+					v, ok := m[k]
+					found := false
+					for _, w := range vs {
+						found = found || (ok && v == w)
+					}
+					if !found {
+						return fmt.Sprintf("cache content %v: key %q should hold one of %v", sortedMap(m), k, vs)
+					}
+				}
+				for k := range m {
+					if _, ok := want[k]; !ok {
+						return fmt.Sprintf("cache content %v: nothing should be stored under %q", sortedMap(m), k)
+					}
+				}
+				return ""
+			}}),
+		})
+	}
+	nokey := Spec{Kind: KCache}
+	keyC := Spec{Kind: KCache, Key: "c"}
+	ok := func(v int, d time.Duration) []Out { return []Out{{V: v, Dur: d}} }
+	add("keys a|b", nokey, []ExeSpec{{Script: ok(1, 10), CacheKey: "a"}, {Script: ok(2, 10), StartAt: 5, CacheKey: "b"}}, map[string][]int{"a": {1}, "b": {2}}, [][2]any{{1, nil}, {2, nil}})
+	add("keys a|b same instant", nokey, []ExeSpec{{Script: ok(1, 10), CacheKey: "a"}, {Script: ok(2, 10), CacheKey: "b"}}, map[string][]int{"a": {1}, "b": {2}}, [][2]any{{1, nil}, {2, nil}})
+	add("context key | configured key", keyC, []ExeSpec{{Script: ok(1, 10), CacheKey: "a"}, {Script: ok(2, 10), StartAt: 5}}, map[string][]int{"a": {1}, "c": {2}}, [][2]any{{1, nil}, {2, nil}})
+	add("configured key | context key", keyC, []ExeSpec{{Script: ok(1, 10)}, {Script: ok(2, 3), StartAt: 5, CacheKey: "a"}}, map[string][]int{"c": {1}, "a": {2}}, [][2]any{{1, nil}, {2, nil}})
+	add("key | no key", nokey, []ExeSpec{{Script: ok(1, 10), CacheKey: "a"}, {Script: ok(2, 10), StartAt: 5}}, map[string][]int{"a": {1}}, [][2]any{{1, nil}, {2, nil}})
+	add("no key | key", nokey, []ExeSpec{{Script: ok(1, 10)}, {Script: ok(2, 3), StartAt: 5, CacheKey: "a"}}, map[string][]int{"a": {2}}, [][2]any{{1, nil}, {2, nil}})
+	add("error | value", nokey, []ExeSpec{{Script: []Out{{Err: E1, Dur: 10}}, CacheKey: "a"}, {Script: ok(2, 3), StartAt: 5, CacheKey: "b"}}, map[string][]int{"b": {2}}, [][2]any{{0, E1}, {2, nil}})
+	add("three keys", nokey, []ExeSpec{{Script: ok(1, 10), CacheKey: "a"}, {Script: ok(2, 10), StartAt: 3, CacheKey: "b"}, {Script: ok(3, 2), StartAt: 6, CacheKey: "c"}}, map[string][]int{"a": {1}, "b": {2}, "c": {3}}, [][2]any{{1, nil}, {2, nil}, {3, nil}})
+	// the caller's context ends while the function (which ignores it) runs: the result is still the function's, and is stored
+	for _, src := range []string{"cancel", "deadline"} {
+		add("ctx "+src+" during function", nokey, []ExeSpec{{Script: ok(1, 10), CacheKey: "a", Ctx: src, CancelAt: 5}}, map[string][]int{"a": {1}}, [][2]any{{1, nil}})
+		add("ctx "+src+" during function, configured key", keyC, []ExeSpec{{Script: ok(1, 10), Ctx: src, CancelAt: 5}}, map[string][]int{"c": {1}}, [][2]any{{1, nil}})
+	}
+	return out
+}
+
+func sortedMap(m map[string]int) string {
+	var ks []string
+	for k := range m {
+		ks = append(ks, k)
+	}
+	sort.Strings(ks)
+	s := "{"
+	for i, k := range ks {
+		if i > 0 {
+			s += " "
+		}
+		s += fmt.Sprintf("%s:%d", k, m[k])
+	}
+	return s + "}"
 }
 
 // ---- C02 ----
@@ -271,7 +386,9 @@ func init() {
 	scenarioSets["C10"] = func(tier string) []*Scenario {
 		return append(c10CancelScenarios(tier), programScenarios("C10", c10Programs(tier), 1)...)
 	}
-	scenarioSets["C11"] = func(tier string) []*Scenario { return programScenarios("C11", c11Programs(tier), 1) }
+	scenarioSets["C11"] = func(tier string) []*Scenario {
+		return append(c11ConcurrentScenarios(tier), programScenarios("C11", c11Programs(tier), 1)...)
+	}
 	scenarioSets["C02"] = func(tier string) []*Scenario {
 		return append(c02SharingScenarios(tier), programScenarios("C02", c02Programs(tier), 1)...)
 	}
@@ -279,7 +396,7 @@ func init() {
 		Property:  "C10",
 		Technique: "exhaustive enumeration of fallback programs executed on the real code under the virtual runtime, checked against the fallback layer contract; plus schedule exploration of cancellation against the fallback's own listener",
 		Rule: "a program = fallback output (result 9, result 0, error E3, error E1: the last two and 0 may themselves be handled) x every subset of {HandleErrors, HandleErrorTypes, HandleResult, HandleIf} plus multi-argument registrations (19) " +
-			"x inner composition (none, retry, retry+ReturnLastFailure, open breaker, full bulkhead, exhausted limiter, timeout, retry over breaker) x function outcome (7 kinds), run twice on the same instances; distinct = distinct observation logs",
+			"x inner composition (none, retry, retry+ReturnLastFailure, open breaker, full bulkhead, exhausted limiter, timeout, retry over breaker) x function outcome (7 kinds), run twice on the same instances; plus the fallback inside a retry policy that treats its output as a failure (3 retry configurations x 4 fallbacks, two of them with an output derived from the failure handled, x every three-outcome script over 5 outcomes); distinct = distinct observation logs",
 		Assume: []string{"classification reference: classify.go (errors.Is / errors.As / DeepEqual)"},
 		Budget: map[string]time.Duration{"quick": 120 * time.Second},
 		Units: func(tier string) []Unit {
@@ -292,12 +409,18 @@ func init() {
 	})
 	register(&CheckDef{
 		Property:  "C11",
-		Technique: "exhaustive enumeration of cache programs (configured and context keys, contents, CacheIf, inner compositions, histories) executed on the real code with an instrumented cache, checked against a map reference",
+		Technique: "exhaustive enumeration of cache programs (configured and context keys, contents, CacheIf, inner compositions, histories) executed on the real code with an instrumented cache, checked against a map reference; plus schedule exploration of overlapping executions sharing the cache policy",
 		Rule: "a program = configured key {none, a} x initial content {empty, a, b} x CacheIf {none, result==1, err!=nil} x inner composition (7) x outcome x a history of three executions with context keys from {absent, a, b, empty string, non-string}; " +
-			"plus the cache policy nested inside a retry policy; the reference is a plain map; distinct = distinct observation logs",
+			"plus the cache policy nested inside a retry policy, and inside a timeout that expires while the function still runs; plus schedule exploration of 2-3 overlapping executions through one cache policy with different, configured and absent keys, and of a caller's context ending while the function runs; the reference is a plain map; distinct = distinct observation logs",
 		Assume: []string{"an empty string supplied as the context key: 'no key' and 'falls back to the configured key' are both accepted", "an execution with no cache key may or may not report a miss"},
 		Budget: map[string]time.Duration{"quick": 120 * time.Second},
-		Units:  func(tier string) []Unit { return programUnits("C11", c11Programs(tier), 200, 1) },
+		Units: func(tier string) []Unit {
+			us := programUnits("C11", c11Programs(tier), 200, 1)
+			for _, sc := range c11ConcurrentScenarios(tier) {
+				us = append(us, scenarioUnit(sc))
+			}
+			return us
+		},
 	})
 	register(&CheckDef{
 		Property:  "C02",
